@@ -1549,8 +1549,13 @@ fn script_churn(rng: &mut Rng, tier: Tier, ex: &mut dyn FnMut(&str) -> String) {
             }
         }
         if rng.chance(1, 5) {
-            // the limit is lowered / raised while sessions exist (nobody is thrown out by that)
-            d.x(&format!("t-setmax {}", rng.pick(&[1usize, 1, 2, 3, 0])));
+            // the limit is lowered / raised while sessions exist (nobody is thrown out by that); a lowered limit is
+            // often raised again by one right away (below the table's length)
+            let n = rng.pick(&[1usize, 1, 2, 3, 0, 0]);
+            d.x(&format!("t-setmax {}", n));
+            if n < 2 && rng.chance(1, 2) {
+                d.x(&format!("t-setmax {}", n + 1));
+            }
         }
         d.round_lossless(rng, dt, 1);
         d.reads(rng, false);
